@@ -16,8 +16,11 @@ Where the code (hence the model) deviates from the guide, the deviation is prove
 * F-C03-2 `subject_clobber_witness` — `match x` with a pattern that binds `x`
   (all theorems are about a subject held in a temporary, `Src.tmp`);
 * F-C03-3 `nonlast_alt_early_exit_witness` — alternatives other than the last one
-  (`pat_spec` is about the last alternative; `first_match` is stated over `mAlts`, i.e. over
-  what the alternatives actually do).
+  (`pat_spec` is about the last alternative; `nonlast_alt_spec_partial` proves the same for every
+  other alternative on `earlyFree` patterns, i.e. excluding exactly the F-C03-3 shape;
+  `first_match` is stated over `mAlts`, i.e. over what the alternatives actually do).
+Frame: `pattern_frame` / `failed_pattern_frame` / `arm_frame` — matching or failing, only the
+pattern's own variables are ever written.
 -/
 import KotoVerif.Model.Match
 import KotoVerif.Model.Unpack
@@ -343,53 +346,93 @@ theorem no_match_falls_through_partial (F : FloatOps) (p : Pat) (v : Val) (ρ : 
     | fail ρ1 => exact ⟨ρ1, rfl⟩
     | err e => exact absurd hr (hnoerr e)
 
-/-- alternatives other than the last one signal success by the jump to `match_end` (`R.done`).
-For patterns that are not parenthesised this is again exactly the declarative definition;
-for parenthesised patterns it holds only on `earlyFree` shapes (F-C03-3, witness below; the
-general statement is not proved — it is covered by the correspondence run only). -/
-theorem nonlast_alt_flat_spec_partial (F : FloatOps) (p : Pat) (v : Val) (ρ ρ' : Env)
-    (hflat : ∀ pre rest post, p ≠ .seq pre rest post) :
+/-- Alternatives other than the last one signal success by the jump to `match_end` (`R.done`).
+On every well-formed pattern that is `earlyFree` — no non-empty parenthesised pattern stands in a
+non-last position of another one — this is again exactly the declarative definition, for any
+nesting.  The hypothesis excludes precisely the shape of F-C03-3 (witness below), hence `_partial`. -/
+theorem nonlast_alt_spec_partial (F : FloatOps) (p : Pat) (v : Val) (ρ ρ' : Env)
+    (hw : wf p = true) (he : earlyFree p = true) (hv : noRange v = true) :
+    mPat F false p true (.direct (.tmp v)) ρ = .done ρ' ↔ ∃ β, Decl F p v β ∧ ρ' = ρ.apply β := by
+  have sp := specN_pat F p hw he (.direct (.tmp v)) ρ v (Or.inl rfl) hv
+  constructor
+  · exact sp.2 ρ'
+  · rintro ⟨β, hd, rfl⟩; exact sp.1 β hd
+
+/-- the same without any side condition for patterns that are not parenthesised -/
+theorem nonlast_alt_flat_spec (F : FloatOps) (p : Pat) (v : Val) (ρ ρ' : Env)
+    (hflat : notSeq p = true) (hv : noRange v = true) :
     mPat F false p true (.direct (.tmp v)) ρ = .done ρ' ↔ ∃ β, Decl F p v β ∧ ρ' = ρ.apply β := by
   cases p with
-  | lit l =>
-    simp only [mPat, fetch, Src.rd, Decl, fin]
-    cases h : litEq F l v <;> simp [eq_comm]
-  | id x ty =>
-    simp only [mPat, fetch, Src.rd, Decl, fin]
-    cases h : tyFail ty v <;> simp [eq_comm]
-  | wild ty =>
-    cases ty with
-    | none => simp [mPat, Decl, fin, tyFail, eq_comm]
-    | some t =>
-      simp only [mPat, fetch, Src.rd, Decl, fin, tyFail]
-      cases h : tyOk t v <;> simp [eq_comm]
-  | map es ty =>
-    have hm := mEnts_spec es v ρ
-    simp only [mPat, container, Src.rd, Decl, fin]
-    by_cases h : tyFail ty v = true
-    · simp [h]
-    · have h' : tyFail ty v = false := by simpa using h
-      simp only [h', Bool.false_eq_true, if_false, true_and]
-      cases hr : mEnts es (.tmp v) ρ with
-      | ok ρ1 =>
-        simp only [Bool.not_false, Bool.and_self, if_true, R.done.injEq]
-        constructor
-        · rintro rfl; exact hm.2.1 _ hr
-        · rintro ⟨β, hd, rfl⟩
-          have := hm.1 β hd
-          rw [hr] at this; cases this; rfl
-      | done ρ1 => exact absurd hr (hm.2.2 _)
-      | fail ρ1 =>
-        simp only [reduceCtorEq, false_iff]
-        rintro ⟨β, hd, _⟩
-        have := hm.1 β hd
-        rw [hr] at this; cases this
-      | err e =>
-        simp only [reduceCtorEq, false_iff]
-        rintro ⟨β, hd, _⟩
-        have := hm.1 β hd
-        rw [hr] at this; cases this
-  | seq pre rest post => exact absurd rfl (hflat pre rest post)
+  | seq pre rest post => simp [notSeq] at hflat
+  | _ => exact nonlast_alt_spec_partial F _ v ρ ρ' rfl rfl hv
+
+/-- an alternative that matches wins over the alternatives after it, with exactly its bindings -/
+theorem first_alt_wins_partial (F : FloatOps) (p : Pat) (alts : List Alt) (v : Val) (ρ : Env) (β : Writes)
+    (hw : wf p = true) (he : earlyFree p = true) (hv : noRange v = true) (hd : Decl F p v β) :
+    mAlts F (.one p :: alts) (.tmp v) ρ = .matched (ρ.apply β) := by
+  cases alts with
+  | nil =>
+    have := (pat_spec F p v ρ (ρ.apply β) true hw hv).2 ⟨β, hd, rfl⟩
+    simp [mAlts, mAlt, this]
+  | cons b rest =>
+    have := (nonlast_alt_spec_partial F p v ρ (ρ.apply β) hw he hv).2 ⟨β, hd, rfl⟩
+    simp [mAlts, mAlt, this]
+
+/-! ## frame: what a pattern — matching or failing — can write -/
+
+/-- Whatever the outcome (match, jump to the guard, *failure*), in any alternative, at any access
+path, with the subject in a register or a temporary: the registers afterwards differ from the
+registers before only on the pattern's own variables.  (A failed alternative may leave *some* of
+them written — `failed_alt_writes_witness` — but never anything else.) -/
+theorem pattern_frame (F : FloatOps) (p : Pat) (la il : Bool) (a : Acc) (ρ ρ' : Env)
+    (h : mPat F la p il a ρ = .ok ρ' ∨ mPat F la p il a ρ = .done ρ' ∨ mPat F la p il a ρ = .fail ρ') :
+    ∀ y, y ∉ patVars p → ρ' y = ρ y := by
+  have hf := frame_pat F p la il a ρ
+  rcases h with h | h | h <;> (rw [h] at hf; exact hf)
+
+theorem failed_pattern_frame (F : FloatOps) (p : Pat) (la il : Bool) (a : Acc) (ρ ρ' : Env)
+    (h : mPat F la p il a ρ = .fail ρ') : ∀ y, y ∉ patVars p → ρ' y = ρ y :=
+  pattern_frame F p la il a ρ ρ' (Or.inr (Or.inr h))
+
+def altsVars : List Alt → List Name
+  | [] => []
+  | a :: as => altVars a ++ altsVars as
+
+theorem alt_frame (F : FloatOps) (la : Bool) (a : Alt) (s : Src) (ρ : Env) :
+    Within (altVars a) ρ (mAlt F la a s ρ) := by
+  cases a with
+  | one p => exact frame_pat F p la true (.direct s) ρ
+  | many ps => exact frame_pats F ps la s 0 true ρ
+
+/-- the alternatives of an arm, matched or not, write only variables of that arm's patterns -/
+theorem arm_frame (F : FloatOps) : ∀ (alts : List Alt) (s : Src) (ρ ρ' : Env),
+    (mAlts F alts s ρ = .matched ρ' ∨ mAlts F alts s ρ = .unmatched ρ') →
+    ∀ y, y ∉ altsVars alts → ρ' y = ρ y
+  | [], s, ρ, ρ', h => by
+    simp [mAlts] at h; subst h; intro _ _; rfl
+  | [a], s, ρ, ρ', h => by
+    have hf := (alt_frame F true a s ρ).mono (ys := altsVars [a]) (by intro x hx; simp [altsVars, hx])
+    simp only [mAlts] at h
+    cases hr : mAlt F true a s ρ with
+    | ok ρ1 => rw [hr] at h hf; simp at h; subst h; exact hf
+    | done ρ1 => rw [hr] at h hf; simp at h; subst h; exact hf
+    | fail ρ1 => rw [hr] at h hf; simp at h; subst h; exact hf
+    | err e => rw [hr] at h; simp at h
+  | a :: b :: rest, s, ρ, ρ', h => by
+    have hf := (alt_frame F false a s ρ).mono (ys := altsVars (a :: b :: rest))
+      (by intro x hx; simp [altsVars, hx])
+    have hrest : ∀ ρ1, Agree (altsVars (a :: b :: rest)) ρ ρ1 →
+        (mAlts F (b :: rest) s ρ1 = .matched ρ' ∨ mAlts F (b :: rest) s ρ1 = .unmatched ρ') →
+        ∀ y, y ∉ altsVars (a :: b :: rest) → ρ' y = ρ y := by
+      intro ρ1 h1 h2 y hy
+      have := arm_frame F (b :: rest) s ρ1 ρ' h2 y (by intro hx; exact hy (by simp [altsVars] at hx ⊢; right; exact hx))
+      rw [this, h1 y hy]
+    simp only [mAlts] at h
+    cases hr : mAlt F false a s ρ with
+    | ok ρ1 => rw [hr] at h hf; exact hrest ρ1 hf h
+    | done ρ1 => rw [hr] at h hf; simp at h; subst h; exact hf
+    | fail ρ1 => rw [hr] at h hf; exact hrest ρ1 hf h
+    | err e => rw [hr] at h; simp at h
 
 /-! ### concrete witnesses (replayed on the implementation by the harness) -/
 
